@@ -513,8 +513,18 @@ def run(ctx):
         dict(shape=[8, 12, 8], cycle='V', sc=102, lr=4015, clevel=-1,
              nus=[0, 1, 1, 1], ncyc=4),
     ]
+    # multigrid as preconditioner of a Krylov solver (called again and again
+    # with the same parameter object), patterns of different lengths
+    corpus += [
+        dict(shape=[8, 8, 8], cycle='F', sc=True, lr=45, clevel=-1,
+             nus=[0, 2, 1, 2], ncyc=6, ssl='bicgstab', stretched=True),
+        dict(shape=[8, 4, 8], cycle='V', sc=12, lr=True, clevel=-1,
+             nus=[0, 1, 1, 1], ncyc=6, ssl='cgs', stretched=False),
+        dict(shape=[8, 8, 4], cycle='W', sc=1213, lr=567, clevel=-1,
+             nus=[0, 2, 1, 2], ncyc=6, ssl='gcrotmk', stretched=True),
+    ]
     for cfg in corpus:
-        run_and_check(ctx, cfg, True, pending=pending)
+        run_and_check(ctx, cfg, not cfg.get('ssl'), pending=pending)
     n_noop = 1500 if ctx.thorough else 300
     n_real = 150 if ctx.thorough else 30
     for _ in range(n_noop):
